@@ -194,6 +194,14 @@ func main() {
 						ins = append(ins, insertion{off: fset.Position(v.End()).Offset, text: ")", ord: -1})
 						mapKeysWrapped++
 					}
+					// X.MapRange() -> _vfMapRange(X): an iterator over the seeded key order
+					if sel, ok := v.Fun.(*ast.SelectorExpr); ok && sel.Sel.Name == "MapRange" && len(v.Args) == 0 && !noLocks {
+						ins = append(ins, insertion{off: fset.Position(v.Pos()).Offset, text: "_vfMapRange(", ord: 1})
+						selOff := fset.Position(sel.X.End()).Offset
+						endOff := fset.Position(v.End()).Offset
+						ins = append(ins, insertion{off: selOff, text: ")", ord: -1, del: endOff - selOff})
+						mapKeysWrapped++
+					}
 					return true
 				}
 				return true
@@ -260,6 +268,21 @@ func _vfMapKeys(k []reflect.Value) []reflect.Value {
 	}
 	return k
 }
+
+// _vfMapIter mirrors reflect.MapIter over the seeded key order.
+type _vfMapIter struct {
+	m    reflect.Value
+	keys []reflect.Value
+	i    int
+}
+
+func _vfMapRange(m reflect.Value) *_vfMapIter {
+	return &_vfMapIter{m: m, keys: _vfMapKeys(m.MapKeys()), i: -1}
+}
+
+func (it *_vfMapIter) Next() bool           { it.i++; return it.i < len(it.keys) }
+func (it *_vfMapIter) Key() reflect.Value   { return it.keys[it.i] }
+func (it *_vfMapIter) Value() reflect.Value { return it.m.MapIndex(it.keys[it.i]) }
 
 // VfSite describes one instrumented statement.
 type VfSite struct {
